@@ -198,11 +198,74 @@ def r15_6(prog: Program, rep: Report):
     rep.check(not bad, "R15.6", fr.qualname, fr.loc, f"on the branch where the reference is not a string, no string-only helper receives it ({sites} call sites)", f"forwardref() hands the non-string reference itself to a helper that treats it as text ({bad[0] if bad else ''}): when neither the caller nor the object supplies a module (`...` revisited in a second variadic tuple) construction raises AttributeError", detail="nonstr-ref")
 
 
+def r15_6_attrs(prog: Program, rep: Report):
+    """(c) A member that arrives in the walk is any annotation object -- `...`, a TypeVar, a typing special form -- and such
+    objects need not carry __module__ / __qualname__ / __name__: the walk and the reference builder read them tolerantly."""
+    f, ps = c09.graph_paths(prog)
+    fr = prog.function("typelib.py.refs.forwardref")
+    ref = ("param", fr.params[0])
+    strict = []
+    n = 0
+    for fn, pths, is_subject in ((f, ps, None), (fr, P.paths_of(prog, fr), lambda x: x == ref)):
+        for pth in pths:
+            for tm in pth.all_terms():
+                for x in T.walk(tm):
+                    if x[0] == "attr" and x[2] in ("__module__", "__qualname__", "__name__") and x[1][0] in ("param", "elem", "unpack", "sub", "call") and x[1] != ("param", "self"):
+                        if is_subject is not None and not is_subject(x[1]):
+                            continue
+                        n += 1
+                        if any(pol and ((T.is_call_to(g, "inspect.isclass") and g[2] == (x[1],)) or (T.is_call_to(g, "builtins.isinstance") and g[2][:1] == (x[1],) and T.refname(g[2][1]) == "builtins.type")) for g, pol in pth.guards()):
+                            continue  # a class always has the three
+                        strict.append(f"{T.show(x)[:50]} in {fn.name}")
+                    if T.is_call_to(x, "builtins.getattr") and len(x[2]) == 3 and x[2][1][0] == "const" and x[2][1][1] in ("__module__", "__qualname__", "__name__"):
+                        n += 1
+    rep.check(not strict and n > 0, "R15.6", f.qualname, f.loc, f"{n} reads of __module__/__qualname__/__name__ on member annotations are tolerant (getattr with a default)", f"a member annotation's attribute is read unconditionally ({sorted(set(strict))[:2]}): a revisited member that is not a class -- the `...` of a second variadic tuple (tuple[tuple[int, ...], tuple[str, ...]]) -- has no such attribute and construction raises AttributeError", detail="tolerant-attrs")
+
+
+def r15_7(prog: Program, rep: Report):
+    """Contradiction rule: where one boolean expression both tests a sequence for emptiness and indexes it with a constant,
+    the test comes first (`not a or a[-1] is ...`).  The other order evaluates the index on the empty sequence."""
+    import ast
+
+    def key(n):
+        return ast.unparse(n)
+
+    sites = 0
+    bad = []
+    for q, f in sorted(prog.functions.items()):
+        for n in ast.walk(f.node):
+            if not isinstance(n, ast.BoolOp):
+                continue
+            vals = n.values
+            for j, vj in enumerate(vals):
+                # an emptiness / truthiness test of X
+                x = None
+                if isinstance(vj, ast.UnaryOp) and isinstance(vj.op, ast.Not) and isinstance(vj.operand, (ast.Name, ast.Attribute)):
+                    x = key(vj.operand)
+                elif isinstance(vj, (ast.Name, ast.Attribute)):
+                    x = key(vj)
+                if x is None:
+                    continue
+                for i, vi in enumerate(vals):
+                    if i == j:
+                        continue
+                    idx = [m for m in ast.walk(vi) if isinstance(m, ast.Subscript) and key(m.value) == x and isinstance(m.slice, (ast.Constant, ast.UnaryOp)) and not isinstance(getattr(m.slice, "value", None), str)]
+                    if not idx:
+                        continue
+                    sites += 1
+                    if i < j:
+                        bad.append(f"{f.qualname} ({f.module.relpath}:{n.lineno}): `{ast.unparse(n)[:60]}`")
+    rep.check(not bad, "R15.7", "typelib", "", f"{sites} boolean expression(s) that test a sequence for emptiness and index it: the test comes first", f"the sequence is indexed before it is tested for emptiness in {bad[:2]}: for the empty sequence (the arguments of tuple[()], an unparameterised generic) the index raises IndexError before the guard is reached", detail="empty-before-index")
+
+
 def run(prog: Program, rep: Report, tier: str):
+    rep.rule("R15.7", "emptiness tests precede constant indexing of the same sequence within one boolean expression", floor=1)
+    r15_7(prog, rep)
     rep.rule("R15.4", "no dispatch predicate raises on a form of the annotation grammar (abstract evaluation, both tables)", floor=22)
     rep.rule("R15.5", "routine constructors unpack no more type arguments than the routed forms have", floor=10)
     rep.rule("R15.6", "graph walk: non-annotation arguments are never members; a non-string reference never reaches the string resolver", floor=2)
     r15_4(prog, rep)
+    r15_6_attrs(prog, rep)
     r15_5(prog, rep)
     r15_6(prog, rep)
     rep.rule("R15.1", "graph skip set vs routine-context lookups (seeded pass-through or tolerant lookups)", floor=3)
